@@ -175,6 +175,7 @@ func c19prop(ev *evid.Rec) func(rt *rapid.T) {
 		nlogin := rapid.IntRange(2, 8).Draw(rt, "nlogins")
 		staleTmp := rapid.IntRange(0, 3).Draw(rt, "staleTmp") == 0
 		editAgreement := rapid.IntRange(0, 2).Draw(rt, "editAgreement") == 0
+		failedReload := rapid.IntRange(0, 2).Draw(rt, "failedReload") == 0
 		overlap := false
 		// the operator's configuration of the post format: default, custom date layout, custom template, both
 		variant := rapid.SampledFrom([]string{"default", "default", "date", "template", "date+tmpl"}).Draw(rt, "postFormat")
@@ -203,6 +204,14 @@ func c19prop(ev *evid.Rec) func(rt *rapid.T) {
 			ti := 0
 			id := uint32(100)
 			for ri, rd := range rounds {
+				if failedReload && ri == len(rounds)/2 {
+					// a reload is requested while the board file cannot be read (moved aside by the operator's editor): the
+					// reload fails, and the board the server holds - every post so far - stays what it was
+					fp := filepath.Join(w.Cfg, "MessageBoard.txt")
+					must(os.Rename(fp, fp+".aside"))
+					_ = w.Board.Reload()
+					must(os.Rename(fp+".aside", fp))
+				}
 				type pending struct {
 					client int
 					id     uint32
@@ -340,7 +349,7 @@ func c19prop(ev *evid.Rec) func(rt *rapid.T) {
 				overlap = true
 			}
 		})
-		ev.Case(evid.Hash(boardSize, agreeSize, fmt.Sprint(rounds), nlogin, fmt.Sprint(len(texts)), variant, editAgreement, staleTmp), overlap, fmt.Sprintf("board:%d", boardSize), fmt.Sprintf("agreement:%d", agreeSize), "post-format:"+variant)
+		ev.Case(evid.Hash(boardSize, agreeSize, fmt.Sprint(rounds), nlogin, fmt.Sprint(len(texts)), variant, editAgreement, staleTmp, failedReload), overlap, fmt.Sprintf("board:%d", boardSize), fmt.Sprintf("agreement:%d", agreeSize), "post-format:"+variant)
 		if overlap && ev.WantSample() {
 			ev.Sample(map[string]any{"engine": "bubble", "board_bytes": boardSize, "agreement_bytes": agreeSize, "rounds(readers/posters by client)": fmt.Sprint(rounds), "simultaneous_logins": nlogin})
 		}
